@@ -7,6 +7,11 @@ use hashbrown::hash_map::DefaultHashBuilder;
 #[cfg(not(json_syntax_verif))]
 use hashbrown::raw::RawTable;
 
+#[cfg(json_syntax_verif)]
+mod verif {
+	include!(concat!(env!("JSON_SYNTAX_VERIF_DIR"), "/incrate/index_map.rs"));
+}
+
 pub trait Equivalent<K: ?Sized> {
 	fn equivalent(&self, key: &K) -> bool;
 }
